@@ -128,6 +128,26 @@ fn overlay_add_label_value(row: &mut Row, var: &str, label: &str) {
     *row = row.clone().with(var.to_string(), updated);
 }
 
+/// Property map of a MERGE pattern: `{key: null}` can neither match nor be created, so
+/// MERGE rejects it (CREATE simply skips such a property).
+pub(super) fn merge_eval_pattern_props_on_row<S: GraphSnapshot>(
+    snapshot: &S,
+    row: &Row,
+    props: &Option<crate::ast::PropertyMap>,
+    params: &crate::query_api::Params,
+) -> Result<std::collections::BTreeMap<String, PropertyValue>> {
+    let out = merge_eval_props_on_row(snapshot, row, props, params)?;
+    if let Some((key, _)) = out
+        .iter()
+        .find(|(_, value)| matches!(value, PropertyValue::Null))
+    {
+        return Err(Error::Other(format!(
+            "semantic error: MergeReadOwnWrites: cannot MERGE with a null value for property `{key}`"
+        )));
+    }
+    Ok(out)
+}
+
 pub(super) fn merge_eval_props_on_row<S: GraphSnapshot>(
     snapshot: &S,
     row: &Row,
